@@ -13,10 +13,12 @@ import (
 	"encoding/hex"
 	"encoding/json"
 	"fmt"
+	"io/fs"
 	"math/big"
 	"os"
 	"runtime"
 	"sync"
+	"time"
 )
 
 type replayFile struct {
@@ -327,3 +329,28 @@ func BigInt(name string) *big.Int {
 	}
 	return r
 }
+
+// VFileInfo / VDirEntry are the values the engine's in-memory file-system
+// model returns for fs.FileInfo / fs.DirEntry (unused natively).
+type VFileInfo struct {
+	N   string
+	S   int64
+	Dir bool
+}
+
+func (f VFileInfo) Name() string       { return f.N }
+func (f VFileInfo) Size() int64        { return f.S }
+func (f VFileInfo) Mode() fs.FileMode  { return 0o666 }
+func (f VFileInfo) ModTime() time.Time { return time.Time{} }
+func (f VFileInfo) IsDir() bool        { return f.Dir }
+func (f VFileInfo) Sys() any           { return nil }
+
+type VDirEntry struct {
+	N   string
+	Dir bool
+}
+
+func (d VDirEntry) Name() string               { return d.N }
+func (d VDirEntry) IsDir() bool                { return d.Dir }
+func (d VDirEntry) Type() fs.FileMode          { return 0 }
+func (d VDirEntry) Info() (fs.FileInfo, error) { return VFileInfo{N: d.N, Dir: d.Dir}, nil }
